@@ -17,13 +17,20 @@ def run(ctx):
         'R2 the side and corner count-once decisions are the same decision '
         'modulo the direction index (side vs side - 5)',
         'R3 gap flow is split in proportion to cell area normalised by the '
-        'total area; the reciprocal is what the energy equation divides by']
+        'total area; the reciprocal is what the energy equation divides by',
+        'R4 the gap cells along a hex side tile that side: (edge cells per '
+        'side) x pitch + 2 x corner length = duct_oftf / sqrt3, for a side '
+        'meshed by a pin bundle (corner length = outer face of the last duct, '
+        'closed form proved by C08.R4; count = n_ring - 1 of the assembly '
+        'whose mesh is used) and for an unrodded side (no edge cells)']
     ctx.not_decided += ['cover-once, 1-3 neighbours, symmetric adjacency, '
                         'mesh-independent total area (combinatorial facts of '
                         'the run-time maps)']
     r1(ctx)
     r2(ctx)
     r3(ctx)
+    r4(ctx)
+    ctx.min_instances('C09.R4', 3)
     ctx.min_instances('C09.R1', 36)
     ctx.min_instances('C09.R2', 1)
     ctx.min_instances('C09.R3', 3)
@@ -166,6 +173,15 @@ def r1(ctx):
                                                  'pin_pitch': flip[rp]})
             w1, c1 = s1.run(body)
             w2, c2 = s2.run(body)
+            # the count returned belongs to the assembly returned
+            fl = {a0: fa, a1: fb}
+            own = (c1 == (w1, 'n_ring', ('-1',))) if fl[w1] else \
+                (c1 is not None and c1[0] == 'const' and c1[1] == 0)
+            ctx.require(own, 'C09.R1', fi, fi.node,
+                        'the edge-cell count returned with an assembly must '
+                        'be that assembly\'s n_ring - 1 (0 if it has no pin '
+                        'bundle); got %s for %s' % (c1, w1),
+                        key='%s | count of the selected assembly' % fi.full)
             # physical identity: call 1 has asm=A, neighbor=B; call 2 swapped
             who1 = 'A' if w1 == a0 else 'B'
             who2 = 'B' if w2 == a0 else 'A'
@@ -309,3 +325,85 @@ def r3(ctx):
                 'C09.R3', pf, pe if pe is not None else pf.node,
                 'gap mixed-mean temperature is the flow(=area)-weighted mean',
                 key=pf.full + ' | mixed mean')
+
+
+# ---------------------------------------------------------------------------
+# R4: cells along a side tile the side
+
+def r4(ctx):
+    from . import _hexgeom as H
+    from ..poly import Rat, from_ast
+    fi = ctx.repo.func('core', 'Core._collect_sc_geom_params')
+    # X, count = _which_asm_has_finer_mesh(...)
+    sel = [st for st in walk_no_nested(fi.node) if isinstance(st, ast.Assign)
+           and isinstance(st.targets[0], ast.Tuple)
+           and isinstance(st.value, ast.Call)
+           and call_name(st.value) == '_which_asm_has_finer_mesh']
+    names = {(src(st.targets[0].elts[0]), src(st.targets[0].elts[1]))
+             for st in sel}
+    if len(names) != 1:
+        raise AnalysisError('_collect_sc_geom_params: selection result names')
+    X, cnt = names.pop()
+    br = [n for n in walk_no_nested(fi.node) if isinstance(n, ast.If)
+          and src(n.test) == X + '.has_rodded']
+    if len(br) != 1 or not br[0].orelse:
+        raise AnalysisError('_collect_sc_geom_params: has_rodded branch')
+    st = [s for s in walk_no_nested(fi.node) if isinstance(s, ast.Assign)
+          and isinstance(s.value, (ast.List, ast.Tuple))
+          and len(s.value.elts) == 2 and isinstance(s.targets[0],
+                                                    ast.Subscript)]
+    if len(st) != 1:
+        raise AnalysisError('_collect_sc_geom_params: dims store')
+    pp_name, wc_name = (src(e) for e in st[0].value.elts)
+    cst = [s for s in walk_no_nested(fi.node) if isinstance(s, ast.Assign)
+           and src(s.value) == cnt and isinstance(s.targets[0],
+                                                  ast.Subscript)]
+    ctx.require(len(cst) == 1 and src(cst[0].targets[0].slice) ==
+                src(st[0].targets[0].slice), 'C09.R4', fi,
+                cst[0] if cst else fi.node,
+                'the edge-cell count stored for a side must be the one '
+                'returned with the assembly whose pitch / corner length are '
+                'stored for that side', key=fi.full + ' | count stored')
+    OF = Rat.sym('OFTF')
+    c = Rat.const
+
+    def last(stmts, name):
+        v = None
+        for s_ in stmts:
+            if isinstance(s_, ast.Assign) and src(s_.targets[0]) == name:
+                v = s_.value
+        return v
+    for label, stmts, count in (('pin bundle', br[0].body, H.N - c(1)),
+                                ('unrodded', br[0].orelse, c(0))):
+        pv, wv = last(stmts, pp_name), last(stmts, wc_name)
+        if wv is None:
+            ctx.violation('C09.R4', fi, br[0], '%s side: corner length not '
+                          'assigned' % label, key='%s | %s shape'
+                          % (fi.full, label))
+            continue
+        if pv is None:       # assigned before the branch
+            pre = [s_ for s_ in walk_no_nested(fi.node)
+                   if isinstance(s_, ast.Assign) and s_.lineno < br[0].lineno]
+            pv = last(pre, pp_name)
+        atoms = {X + '.rodded.pin_pitch': 'P', X + '.duct_oftf': 'OFTF',
+                 '_sqrt3': 'r3'}
+        for form in ("[-1, -1]", "[-1][-1]",
+                     "[%s.rodded.n_duct - 1, 1]" % X):
+            atoms[X + ".rodded.d['wcorner']" + form] = 'WC'
+        try:
+            pr = from_ast(pv, atoms, auto=True)
+            wr = from_ast(wv, atoms, auto=True)
+        except Exception as e:
+            raise AnalysisError('_collect_sc_geom_params: %s' % e)
+        # corner length of the outer face of the last duct (C08.R4), whose
+        # flat-to-flat distance is the assembly's outer flat-to-flat
+        wc_cf = OF / (c(2) * H.R3) - H.P_ * (H.N - c(1)) / c(2)
+        wr = wr._subs_rat('WC', wc_cf) if 'WC' in (
+            wr.n.symbols() | wr.d.symbols()) else wr
+        res = count * pr + c(2) * wr - OF / H.R3
+        ctx.require(H.is_zero(res), 'C09.R4', fi, br[0],
+                    '%s side: (edge cells per side) x pitch + 2 x corner '
+                    'length must equal the hexagon side duct_oftf / sqrt3 '
+                    '(pitch = %s, corner = %s; residual %r)'
+                    % (label, src(pv), src(wv), H.reduce_r3(res).n),
+                    key='%s | %s side tiling' % (fi.full, label))
